@@ -1,3 +1,4 @@
+from .common import frame_unit, EMU_FILES
 LEVEL = "other"
 EXPLANATION = "under construction"
 ASSUMPTIONS = ["bounded: histories of <=2 (quick) / <=3 (thorough) reconfiguration steps from 10 step kinds, each followed by every kind of read"]
@@ -13,4 +14,5 @@ def units(tier):
         u.append(dict(kind="func", mechanism="bounded runtime contract (C)", name=f"bounded:quick-histories[{k}/3]", module="vf.tasks.t_history", func="unit",
                       args=dict(kind="quick", shard=k, nshards=3)))
     u.append(dict(kind="func", mechanism="bounded runtime contract (C)", name="bounded:analyzer-histories", module="vf.tasks.t_history", func="unit", args=dict(kind="analyzer")))
+    u.append(frame_unit("emulator", EMU_FILES))
     return u
